@@ -91,6 +91,18 @@ def install(E):
     @reg('strlen')
     def _strlen(E, st, fr, a, d):
         return len(E.cstring(st, P_(E, st, a[0])))
+    def _str_find(E, st, a, last):
+        # concrete C strings (E.cstring concretises symbolic bytes): first / last occurrence of the byte, the terminator included
+        ptr = P_(E, st, a[0]); c = conc(E, st, a[1], 'strchr byte') & 0xFF
+        cs = E.cstring(st, ptr)
+        s_ = [(ord(x) if isinstance(x, str) else int(x)) & 0xFF for x in cs] + [0]
+        idx = [k for k, x in enumerate(s_) if x == c]
+        if not idx: return NULL
+        return Ptr(ptr.obj, ptr.off + (idx[-1] if last else idx[0]))
+    @reg('strchr')
+    def _strchr(E, st, fr, a, d): return _str_find(E, st, a, False)
+    @reg('strrchr')
+    def _strrchr(E, st, fr, a, d): return _str_find(E, st, a, True)
     def sym_strcmp(E, st, pa, pb, limit=None):
         """byte-wise comparison; symbolic bytes fork on equal / different (and on NUL)"""
         oa = E.obj_of(st, pa, 'string read'); ob = E.obj_of(st, pb, 'string read')
